@@ -84,8 +84,9 @@ def parse_url(url: str) -> ParsedURL:
     # Normalize path (default to '/')
     path = parsed.path if parsed.path else "/"
 
-    # Construct normalized URL (IP literals containing ':' must stay bracketed)
-    host = f"[{parsed.hostname}]" if ":" in parsed.hostname else parsed.hostname
+    # Construct normalized URL (IP literals - IPv6 or IPvFuture - stay bracketed)
+    bracketed = parsed.netloc.rpartition("@")[2].startswith("[")
+    host = f"[{parsed.hostname}]" if bracketed else parsed.hostname
     normalized = urlunparse(
         (
             "gemini",  # Always use 'gemini' scheme
